@@ -956,11 +956,20 @@ def r13(R):
     f = R.method(w, 'persistent_id')
     g, b, F = R.cfg(f, w, max_depth=0)
     seen = [0]
+    # the local that carries the target's database name, by role: bound to
+    # somebody's `.database_name`
+    dbnames = {t.id for a in walk_local(f.node)
+               if isinstance(a, ast.Assign) and isinstance(
+                   a.value, ast.Attribute) and
+               a.value.attr == 'database_name'
+               for t in a.targets if isinstance(t, ast.Name)}
+    R.require(dbnames, 'persistent_id no longer keeps the target\'s '
+              'database name in a local')
 
     def names_db(e):
         """the returned reference carries a database name"""
         for x in ast.walk(e):
-            if isinstance(x, ast.Name) and x.id == 'database_name':
+            if isinstance(x, ast.Name) and x.id in dbnames:
                 return True
             if isinstance(x, ast.Attribute) and x.attr == 'database_name':
                 return True
@@ -968,7 +977,7 @@ def r13(R):
 
     from ..flow import Flags
     flags = Flags(F, lambda e, fr: 'dbname' if isinstance(e, ast.Name) and
-                  e.id == 'database_name' else None)
+                  e.id in dbnames else None)
 
     def edge(node, st0, lab, tgt):
         st, fl = st0
@@ -989,12 +998,12 @@ def r13(R):
             for e, truth in implied_atoms(node.ast, lab):
                 if isinstance(e, ast.Compare) and len(e.ops) == 1 and \
                         isinstance(e.left, ast.Name) and \
-                        e.left.id == 'database_name' and isinstance(
+                        e.left.id in dbnames and isinstance(
                             e.comparators[0], ast.Constant) and \
                         e.comparators[0].value is None and \
                         isinstance(e.ops[0], ast.Is) == truth:
                     return 'no-name'
-                if isinstance(e, ast.Name) and e.id == 'database_name' and \
+                if isinstance(e, ast.Name) and e.id in dbnames and \
                         not truth:
                     return 'no-name'
         return st
